@@ -23,6 +23,9 @@ type Clause struct {
 type LoopContract struct {
 	Invariants []*Clause
 	Decreases  *Clause
+	// Latch: asserted at every back edge, in the state and with the names (and the call
+	// log of the iteration) at that point: "every completed iteration has done ..."
+	Latch []*Clause
 }
 
 type CallContract struct {
@@ -40,6 +43,9 @@ type Contract struct {
 	Loops    map[int]*LoopContract
 	Calls    map[string]*CallContract // keyed by "callee#ordinal"
 	Safety   bool
+	// AutoInv: candidate loop invariants `v >= c` for every integer loop variable that enters
+	// its loop with the constant c; candidates that are not inductive are dropped (Houdini)
+	AutoInv bool
 	Mode     string // "", "bv"
 	Strings  string // "", "smt"
 	Trusted  bool   // body not checked (only allowed for external functions)
@@ -124,7 +130,7 @@ type Axiom struct {
 
 var clauseKeywords = map[string]bool{
 	"func": true, "requires": true, "ensures": true, "assigns": true, "loop": true,
-	"safety": true, "mode": true, "strings": true, "trusted": true, "pure": true, "inline": true,
+	"safety": true, "auto-invariants": true, "mode": true, "strings": true, "trusted": true, "pure": true, "inline": true,
 	"spec": true, "lemma": true, "axiom": true, "at-call": true, "unroll": true, "atomic": true, "inventory": true, "allowed-calls": true, "abstract-calls": true, "pure-params": true, "package": true,
 }
 
@@ -314,6 +320,8 @@ func (cs *ContractSet) loadContractFile(path, pkgPath string) error {
 					lc.Invariants = append(lc.Invariants, c)
 				case "decreases":
 					lc.Decreases = c
+				case "latch-assert":
+					lc.Latch = append(lc.Latch, c)
 				default:
 					return fmt.Errorf("%s:%d: unknown loop clause %s", path, st.line, f[2])
 				}
@@ -354,6 +362,8 @@ func (cs *ContractSet) loadContractFile(path, pkgPath string) error {
 				}
 			case "safety":
 				cur.Safety = rest == "on"
+			case "auto-invariants":
+				cur.AutoInv = true
 			case "atomic":
 				// atomic Type.field rely <expr> guarantee [tag] <expr>
 				gi := strings.Index(rest, " guarantee ")
